@@ -26,9 +26,9 @@ func cases(tier string) int {
 
 func cliEvery(tier string) int {
 	if tier == "thorough" {
-		return 50
+		return 40
 	}
-	return 25
+	return 10 // 100 CLI cases per quick run: each of the 9 spellings of the project directory about 11 times
 }
 
 var Check = &run.Check{
@@ -39,8 +39,8 @@ var Check = &run.Check{
 		"every import is PLANTED with kind (single-type / wildcard / static method / static constant / static wildcard) and with the exact set of roles in which its simple name is used in that file " +
 		"(type of field/parameter/local/return, array, varargs, generic argument, bound, extends/implements, cast, instanceof, class literal, annotation on class/method/field/parameter/local with and without arguments, " +
 		"new incl. diamond/array/anonymous/argument, static receiver of a call or field, method reference, catch incl. multi-catch, throws, qualifier of a nested type/annotation/exception in two-, three- and four-segment names, " +
-		"unqualified call of a statically imported method, bare read of a statically imported constant in 11 positions) or none; per-file profile none / clean / dirty / all-unused, same simple names used in one file and unused in another; production classes named Contest / Latest / Protests / OrderBacktests ...; real *Test.java / *Tests.java files as bystanders; " +
-		"run through unused.NewRemoveUnusedImportApp(dir).Analysis()+Refactoring() twice, every Nth case through `coca refactor -m cfg -p dir` twice; " +
+		"unqualified call of a statically imported method, bare read of a statically imported constant in 11 positions) or none; per-file profile none / clean / dirty / all-unused, same simple names used in one file and unused in another; production classes named Contest / Latest / Protests / OrderBacktests ...; real *Test.java / *Tests.java files as bystanders; class, annotation, exception and static member names with non-ASCII letters (Überweisung, Geprüft, 订单, GEBÜHR, prüfe) in every role; " +
+		"run through unused.NewRemoveUnusedImportApp(dir).Analysis()+Refactoring() twice, every Nth case through `coca refactor -m cfg -p dir` twice, the project directory spelled in rotation as absolute path, with trailing slash, relative, ./relative, relative/, '.', '..', sub/.., ../name (cwd chosen accordingly); " +
 		"non-trivial = >= 2 files with planted-unused imports, each of which also holds >= 1 import that must be kept; distinct = hash of (layout, per file: type kind, header, per import: kind, roles, gap, style, line ending)",
 	Assumptions: []string{
 		"every generated file is accepted by coca's own Java parser (rejects are counted as inconclusive)",
@@ -155,24 +155,30 @@ func runCase(c *run.Ctx, o *run.Outcome) {
 
 	useCLI := c.CocaBin != "" && c.Index%cliEvery(c.Tier) == 5
 	cfg := filepath.Join(c.Scratch(), "move.config")
+	// the CLI slice names the project directory in every legal way a user may (absolute, relative, ".", "..", ...);
+	// the spelling rotates over the CLI cases and is part of every signature of a CLI case
+	cliCwd, cliArg, cliRoot := c.Scratch(), dir, ""
 	if useCLI {
 		o.Count("cli_cases", 1)
 		ioutil.WriteFile(cfg, nil, 0o644)
+		cliCwd, cliArg, cliRoot = common.SpellRoot(c.Index/cliEvery(c.Tier), dir, c.Scratch())
+		o.Count("cli_root_spelled_"+cliRoot, 1)
+		o.Seen("cli_root_spellings", cliRoot)
 	}
-	witness := map[string]interface{}{"project": p, "cli": useCLI}
+	witness := map[string]interface{}{"project": p, "cli": useCLI, "cli_cwd": cliCwd, "cli_p_argument": cliArg, "cli_root_spelling": cliRoot}
 	o.Witness = witness
 
 	// one removal run; returns false when the run itself failed (already reported)
 	removal := func(which string) bool {
 		if useCLI {
-			res := common.RunCLI(c.CocaBin, c.Scratch(), nil, "refactor", "-m", cfg, "-p", dir)
+			res := common.RunCLI(c.CocaBin, cliCwd, nil, "refactor", "-m", cfg, "-p", cliArg)
 			if res.TimedOut {
 				o.SetInconclusive("cli watchdog")
 				return false
 			}
 			if res.ExitCode != 0 || strings.Contains(res.Stderr, "panic:") {
 				witness["cli_stderr_"+which] = first(res.Stderr)
-				o.Violate("cli-crash/"+which+"-run", "`coca refactor -m cfg -p dir` (%s run, %d files) exit %d: %s", which, len(p.Files), res.ExitCode, first(res.Stderr))
+				o.Violate("cli-crash/"+which+"-run~cli-root:"+cliRoot, "`coca refactor -m cfg -p %s` in %s (%s run, %d files) exit %d: %s", cliArg, cliCwd, which, len(p.Files), res.ExitCode, first(res.Stderr))
 				return false
 			}
 			return true
@@ -240,6 +246,10 @@ func runCase(c *run.Ctx, o *run.Outcome) {
 	o.Count("imports_unused_planted", st.Unused)
 	o.Count("imports_unused_deleted", st.UnusedDeleted)
 	o.Count("bystander_unused_imports_left", st.BystanderUnusedKept)
+	o.Count("non_ascii_name_must_keep", st.NonASCIIMustKeep)
+	o.Count("non_ascii_name_must_keep_kept", st.NonASCIIKept)
+	o.Count("non_ascii_name_unused_planted", st.NonASCIIUnused)
+	o.Count("non_ascii_name_unused_deleted", st.NonASCIIUnusedDeleted)
 	o.Count("imports_ambiguous_planted", st.Ambiguous)
 	o.Count("imports_ambiguous_deleted", st.AmbiguousDeleted)
 	o.Count("lines_deleted", st.LinesDeleted)
@@ -256,6 +266,10 @@ func runCase(c *run.Ctx, o *run.Outcome) {
 		o.Count("kept_with_role_"+k, st.RolesKept[k])
 	}
 	for _, m := range ms {
+		if useCLI {
+			o.Violate(m.Sig+"~cli-root:"+cliRoot, "[`coca refactor -m cfg -p %s`, project directory spelled %s] %s", cliArg, cliRoot, m.Msg)
+			continue
+		}
 		o.Violate(m.Sig, "%s", m.Msg)
 	}
 	if c.Index < 64 {
